@@ -173,6 +173,12 @@ def run(ctx):
                    CEC + "CloseRawQuicConnection::handle_quic_error_raw"])
     ctx.check(closers == want, "C05-c", "h3::quic::OpenStreams::close", "who may close the QUIC connection",
               "OpenStreams::close is called from %s; audited: %s" % (closers, want), str(closers))
+    # the two "raw" closers bypass the error cell: they exist for connection setup, before a ConnectionInner (and its cell) exists
+    for raw in ("close_raw_connection_with_h3_error", "handle_quic_error_raw"):
+        who_ = sorted({b.key for b, bb, t in prog.callers_of(CEC + "CloseRawQuicConnection::" + raw)})
+        ctx.check(who_ == [CI + "new::{closure#0}"], "C05-c", CEC + "CloseRawQuicConnection::" + raw, "raw close only during connection setup",
+                  "%s is called from %s: closing the transport without recording the error in the cell leaves every handle (and the driver's "
+                  "later calls) reporting something other than the error the connection was closed with" % (raw, who_), str(who_))
     cc = sorted({b.key for b, bb, t in prog.callers_of(CI + "close_connection")})
     want = sorted([CI + "close_if_needed", "<h3::server::connection::Connection as core::ops::drop::Drop>::drop"])
     ctx.check(cc == want, "C05-c", CI + "close_connection", "who may call close_connection",
